@@ -207,7 +207,7 @@ def run(chk, facts, tier, only=None):
                     tyb.append((bind_names(fl.get("ty")) or [None])[0])
                 lab = {}
                 for (atom, neg) in cond_atoms(a.get("guard")):
-                    if neg or atom.get("k") != "bin" or atom.get("op") != "Eq":
+                    if neg or not isinstance(atom, dict) or atom.get("k") != "bin" or atom.get("op") != "Eq":
                         continue
                     for x, y in ((atom["a"], atom["b"]), (atom["b"], atom["a"])):
                         n = local_name(x)
@@ -267,8 +267,11 @@ def run(chk, facts, tier, only=None):
     # ------------------------------------------------------------------------------------------------- R2
     def r2():
         sites = []
-        for h in cp.fns(RS + r"NominalState::"):
-            chk.analysed(h["key"])
+        for h in cp.fns("^" + RS):        # the whole Rust binding module: a helper outside NominalState is still seen
+            if h.get("kind") not in ("Fn", "AssocFn"):
+                continue
+            if "NominalState" in h["key"]:
+                chk.analysed(h["key"])
             par = None
             for n in walk(h["body"]):
                 if n.get("k") != "mcall":
@@ -284,7 +287,7 @@ def run(chk, facts, tier, only=None):
                 if par is None:
                     par = parent_map(h["body"])
                 sites.append((h, n, par))
-        chk.floor("writes into a TypeEnv map in NominalState", len(sites), 5)
+        chk.floor("writes into a TypeEnv map in bindings::rust", len(sites), 5)
         for h, n, par in sites:
             fname = h["name"]
             anc = ancestors(n, par)
@@ -301,9 +304,13 @@ def run(chk, facts, tier, only=None):
             recv_path = expr_path(n["recv"])
             if n["m"] != "insert":
                 # entry()/try_insert() expose the occupied case to the caller; extend/append cannot
-                okm = n["m"] in ("entry", "try_insert")
+                pn = par.get(id(n)) or {}
+                okm = n["m"] == "try_insert" and pn.get("k") != "semi" or \
+                    (n["m"] == "entry" and pn.get("k") in ("match", "let") and (pn.get("scrut") is n or pn.get("init") is n))
                 chk.expect(okm, f"{n['m']}:{fname}/{ctx}:{mapname}",
-                           f"{h['key']}: bulk `{n['m']}` into the nominalised environment overwrites equal names silently",
+                           f"{h['key']}: `{show(pn if pn.get('k') == 'mcall' else n)[:80]}` writes into the nominalised environment "
+                           f"without exposing the occupied case (entry().or_insert keeps the first, extend/append keep the last "
+                           f"definition of an equal name silently)",
                            where=f"{h['span']['file']}:{n.get('ln')}")
                 continue
             keyarg = n["args"][0]
